@@ -4,6 +4,7 @@
 package simsync
 
 import (
+	"runtime"
 	"sync"
 
 	"verifsim/simrt"
@@ -40,7 +41,7 @@ func (m *Mutex) Lock() {
 		return
 	}
 	if t.IsDead() {
-		return
+		runtime.Goexit() // the run is over: no more repository code on this goroutine
 	}
 	t.Yield("Lock")
 	for !m.try(t) {
@@ -55,7 +56,7 @@ func (m *Mutex) TryLock() bool {
 		return m.real.TryLock()
 	}
 	if t.IsDead() {
-		return true
+		runtime.Goexit() // the run is over: no more repository code on this goroutine
 	}
 	t.Yield("TryLock")
 	return m.try(t)
@@ -116,7 +117,7 @@ func (m *RWMutex) Lock() {
 		return
 	}
 	if t.IsDead() {
-		return
+		runtime.Goexit() // the run is over: no more repository code on this goroutine
 	}
 	t.Yield("Lock")
 	for !m.tryW() {
@@ -150,7 +151,7 @@ func (m *RWMutex) RLock() {
 		return
 	}
 	if t.IsDead() {
-		return
+		runtime.Goexit() // the run is over: no more repository code on this goroutine
 	}
 	t.Yield("RLock")
 	for !m.tryR() {
@@ -242,7 +243,7 @@ func (c *Cond) Wait() {
 		return
 	}
 	if t.IsDead() {
-		return
+		runtime.Goexit() // the run is over: no more repository code on this goroutine
 	}
 	w := &condWaiter{}
 	c.g.Lock()
